@@ -59,9 +59,13 @@ def formatter_layout(chk) -> Dict[str, Tuple[int, int]]:
     rets = [r for r in fi.node.body if isinstance(r, ast.Return)]
     chk.expect(len(rets) == 1 and norm(rets[0].value) == "line.ljust(80)", "writer-layout", fi.where, "the line is padded to exactly 80 characters", "the atom line is not returned as line.ljust(80)", K(fi, "ljust"))
     # writer widths vs reader slices (sibling agreement)
-    rd = line_slices(repo.func(M, "parse_pdb_atoms").node)
+    from checks import c08
+
+    rd, _how = c08.reader_slices(chk, "v2")
+    if _how == "none":
+        chk.error("writer-reader-columns", fi.where, "the columns parse_pdb_atoms takes its fields from could not be established")
     for field, g in got.items():
-        if field in sp["atom"]:
+        if field in sp["atom"] and _how != "none":
             chk.expect(rd.get(field) == g, "writer-reader-columns", fi.where, f"{field}: writer columns = reader slice {g}", f"{field}: writer puts it at {g}, reader takes {rd.get(field)}", f"{M}:columns:{field}", expected=list(g), found=list(rd.get(field)) if rd.get(field) else None)
     return got
 
@@ -435,13 +439,33 @@ def check_reader(chk) -> None:
         if isinstance(s, ast.Assign) and norm(s.targets[0]) == "categorical_columns":
             cat = Folder(repo, M).try_fold(s.value)
     chk.expect(num == ["serial", "resSeq", "x", "y", "z", "occupancy", "tempFactor", "model"] and cat == ["record_type", "name", "altLoc", "resName", "chainID", "element", "charge"], "reader-types", fi.where, "numeric and categorical PDB columns as declared", "the typing of PDB columns changed (numeric/categorical lists)", K(fi, "types"))
-    opt = {}
-    for s in ast.walk(fi.node):
-        if isinstance(s, ast.Dict):
-            for k, v in zip(s.keys, s.values):
-                if isinstance(k, ast.Constant) and isinstance(v, ast.IfExp):
-                    opt[k.value] = norm(v)
-    chk.expect(sorted(opt) == ["altLoc", "charge", "element", "iCode"] and all(v.startswith("None if not ") for v in opt.values()), "null-agreement", fi.where, "blank optional PDB fields (altLoc, iCode, element, charge) read as None", "blank optional PDB fields are not read as None", K(fi, "blank-none"), found=opt)
+    # blank optional fields: the line loop evaluated on an ATOM line whose optional fields are blank
+    from checks import c08e
+    from sa.blockeval import Unknown
+
+    sp = spec("pdb_columns.json")
+    optional = ("altLoc", "iCode", "element", "charge")
+    try:
+        blank = c08e.pdb_line(sp, "ATOM", {k: v for k, v in c08e.ATOM_FIELDS.items() if k not in optional})
+        rec, _ = c08e.v2_decode(repo, blank)
+        full, _ = c08e.v2_decode(repo, c08e.pdb_line(sp, "ATOM", c08e.ATOM_FIELDS))
+        if rec is None or full is None:
+            chk.violation("null-agreement", fi.where, "an ATOM line with blank optional fields is not decoded at all", K(fi, "blank-none"))
+        else:
+            bad = {k: rec.get(k, "<absent>") for k in optional if rec.get(k, "<absent>") is not None}
+            lost = {k: full.get(k) for k in optional if full.get(k) in (None, "")}
+            chk.expect(not bad and not lost, "null-agreement", fi.where, "evaluated: blank optional PDB fields (altLoc, iCode, element, charge) read as None, filled ones as their text", f"blank optional PDB fields are not read as None: {bad}" if bad else f"filled optional fields are lost: {lost}", K(fi, "blank-none"), found=bad or lost)
+    except Unknown:
+        opt = {}
+        for s in ast.walk(fi.node):
+            if isinstance(s, ast.Dict):
+                for k, v in zip(s.keys, s.values):
+                    if isinstance(k, ast.Constant) and isinstance(v, ast.IfExp):
+                        opt[k.value] = norm(v)
+        if sorted(opt) == ["altLoc", "charge", "element", "iCode"] and all(v.startswith("None if not ") for v in opt.values()):
+            chk.ok("null-agreement", fi.where, "blank optional PDB fields (altLoc, iCode, element, charge) read as None")
+        else:
+            chk.error("null-agreement", fi.where, "how blank optional PDB fields are read could not be established (line loop not evaluable, pinned form not found)")
 
 
 def check_splitter(chk) -> None:
